@@ -117,8 +117,7 @@ CondAnon = Struct("CondAnon", NS2, emb="more.emb", fields=[
     F("hi", 2, 1, UInt(), bits=(4, 4), contribute=False, cond=lambda f: f.tag == 1),
     V("body_alias", lambda f: f.body, cond=lambda f: f.tag == 2),
 ])
-for _s in (WithBits, Nested):
-    _s.c20 = False      # Equals over named containers / nested structures is not specified by fields_equal yet
+# (WithBits and Nested: Equals over named containers / nested structures = equality of their scalar members)
 
 Dyn.c20 = False       # array field: element-wise Equals needs loop invariants, not unrolling (not covered)
 ALL = {"Plain": Plain, "Cond": Cond, "Dyn": Dyn, "Virt": Virt, "Kleene": Kleene, "Absent": Absent, "Checked": Checked,
